@@ -2377,6 +2377,7 @@ func round8(c *Ctx, r *Report, prop string) {
 	case "C12":
 		c12r12(c, r)
 	case "C06":
+		c13r11(c, r) // every record becomes an item: the reader is never blocked for good
 		c06r11(c, r)
 		c06r12(c, r)
 	case "C15":
@@ -2397,9 +2398,11 @@ func round8(c *Ctx, r *Report, prop string) {
 	case "C20":
 		c20r15(c, r)
 	case "C13":
+		c13r11(c, r)
 		c05r14(c, r) // pushers do not race on the streaming filter's slab
 		c05r16(c, r)
 	case "C14":
 		c14r17(c, r)
+		c13r11(c, r) // never stops responding: no lock-order cycle
 	}
 }
